@@ -121,7 +121,8 @@ pub struct Ref {
     pub vars: BTreeMap<String, V>,
     pub dims: BTreeMap<String, Vec<i16>>,
     pub deftype: [Ty; 26],
-    fns: BTreeMap<String, (Vec<Var>, Expr)>,
+    fns: BTreeMap<String, (Vec<Var>, Expr, Option<usize>)>,
+    cur_line: Option<usize>,
     stack: Vec<Frame>,
     data: Vec<(usize, V)>,
     pub data_ptr: usize,
@@ -146,6 +147,8 @@ pub struct Ref {
     pub auto_reply: Option<crate::prng::Rng>,
     pub used_replies: Vec<String>,
     bad_streak: u32,
+    /// the last stop was a runtime error: a following CONT is a grey zone
+    cont_after_error: bool,
 }
 
 pub fn stmt_kind(s: &Stmt) -> &'static str {
@@ -235,6 +238,7 @@ impl Ref {
             dims: BTreeMap::new(),
             deftype: [Ty::Sng; 26],
             fns: BTreeMap::new(),
+            cur_line: None,
             stack: vec![],
             data: vec![],
             data_ptr: 0,
@@ -255,6 +259,7 @@ impl Ref {
             auto_reply: None,
             used_replies: vec![],
             bad_streak: 0,
+            cont_after_error: false,
         };
         r.set_program(prog);
         r
@@ -277,6 +282,7 @@ impl Ref {
             self.collect_data(i, &l.stmts);
         }
         self.cont = None;
+        self.cont_after_error = false;
     }
 
     fn collect_data(&mut self, line: usize, stmts: &[Stmt]) {
@@ -863,12 +869,15 @@ impl Ref {
         for a in args {
             vals.push(self.eval(a)?);
         }
-        let (params, body) = match self.fns.get(&key) {
+        let (params, body, def_line) = match self.fns.get(&key) {
             Some(x) => x.clone(),
             None => return Err("UNDEFINED USER FUNCTION"),
         };
         if params.len() != vals.len() {
             return Err("ILLEGAL FUNCTION CALL");
+        }
+        if self.tron {
+            self.grey("user function called while tracing");
         }
         let mut frame = BTreeMap::new();
         for (p, v) in params.iter().zip(vals.into_iter()) {
@@ -895,6 +904,10 @@ impl Ref {
         let r = self.eval(&body);
         self.locals.pop();
         self.fn_depth -= 1;
+        if r.is_err() && def_line != self.cur_line {
+            // which line an error inside a function body is attributed to is not settled
+            self.grey("runtime error inside a user function body defined on another line");
+        }
         r
     }
 
@@ -995,6 +1008,7 @@ impl Ref {
         self.stack.clear();
         self.data_ptr = 0;
         self.cont = None;
+        self.cont_after_error = false;
     }
 
     fn while_match(&mut self, pos: Pos, forward: bool) -> Option<Pos> {
@@ -1096,6 +1110,9 @@ impl Ref {
                             continue;
                         }
                         // fell off the end of the program: implicit END, nothing to continue
+                        if self.tron && self.last_traced != Some(i) {
+                            self.grey("end of program reached by a jump while tracing");
+                        }
                         self.cont = None;
                         self.ready();
                         return Ended::Ready;
@@ -1109,6 +1126,10 @@ impl Ref {
             let next = Pos {
                 place: pos.place,
                 idx: pos.idx + 1,
+            };
+            self.cur_line = match pos.place {
+                Place::Prog(i) => Some(i),
+                Place::Direct => None,
             };
             let stmt = match flat {
                 Flat::Eol => {
@@ -1141,6 +1162,8 @@ impl Ref {
             };
             if !matches!(stmt, Stmt::Rem(..) | Stmt::Data(_)) {
                 self.trace(pos.place);
+            } else if self.tron && matches!(pos.place, Place::Prog(_)) {
+                self.grey("code-less statement passed while tracing");
             }
             *self.kinds.entry(stmt_kind(&stmt)).or_insert(0) += 1;
             match self.exec(&stmt, pos, next) {
@@ -1180,6 +1203,7 @@ impl Ref {
         } else {
             // CONT after an error is a grey zone; nothing may rely on it
             self.cont = None;
+            self.cont_after_error = true;
         }
         self.emit("READY.\n");
         Ended::Error
@@ -1535,8 +1559,12 @@ impl Ref {
                 if !in_prog {
                     return Err("ILLEGAL DIRECT");
                 }
+                let here = match pos.place {
+                    Place::Prog(i) => Some(i),
+                    Place::Direct => None,
+                };
                 self.fns
-                    .insert(name.text(), (params.clone(), body.clone()));
+                    .insert(name.text(), (params.clone(), body.clone(), here));
                 Ok(Flow::Next)
             }
             Stmt::DefType(ty, a, b) => {
@@ -1602,9 +1630,6 @@ impl Ref {
                     return Err("ILLEGAL FUNCTION CALL");
                 }
                 let chars: Vec<char> = orig.chars().collect();
-                if start > chars.len() {
-                    self.grey("MID$ assignment starting past the end");
-                }
                 let mut out: Vec<char> = chars.clone();
                 let mut i = start - 1;
                 for c in ins.chars().take(lenv) {
@@ -1668,6 +1693,10 @@ impl Ref {
             Stmt::Cont => {
                 if in_prog {
                     self.grey("CONT inside a program");
+                    return Ok(Flow::Next);
+                }
+                if self.cont_after_error {
+                    self.grey("CONT after a runtime error");
                     return Ok(Flow::Next);
                 }
                 match self.cont.take() {
